@@ -209,7 +209,9 @@ def judge (_id : String) (lines : Array String) : Verdict := Id.run do
   let mut tbls : List Tbl := []
   let mut wks : List (Nat × Nat) := []
   for l in lines do
-    let (opT, _) := splitObs (tokens l)
+    let (opT, obs0) := splitObs (tokens l)
+    -- ops after the scheduler stopped answering carry no oracle tokens; pass 1 stops at the `blocked` op before them
+    if obs0.head? == some "dead" then continue
     match opT with
     | "sched" :: id :: sc :: _ :: last :: rest =>
       let some idn := id.toNat? | return .badop l
